@@ -185,6 +185,7 @@ pub const P_READ_TO_STRING: usize = usize::MAX;
 pub const P_PREFIX_THEN_READ_TO_END: usize = usize::MAX - 1;
 pub const P_BYTES: usize = usize::MAX - 2;
 pub const P_IO_COPY: usize = usize::MAX - 3;
+pub const P_READ_VECTORED: usize = usize::MAX - 4;
 pub fn pattern_name(b: usize) -> String {
     match b {
         0 => "read_to_end".into(),
@@ -192,6 +193,7 @@ pub fn pattern_name(b: usize) -> String {
         P_PREFIX_THEN_READ_TO_END => "read_exact(1) then read_to_end into the same vector".into(),
         P_BYTES => "bytes()".into(),
         P_IO_COPY => "io::copy".into(),
+        P_READ_VECTORED => "read_vectored into slices of 3 and 5 bytes".into(),
         n => n.to_string(),
     }
 }
@@ -229,6 +231,27 @@ fn read_pattern<R: Read>(r: &mut R, bufsize: usize, zero_reads: bool, limit: usi
                 }
             }
             return Some(v);
+        }
+        P_READ_VECTORED => {
+            let mut v = vec![];
+            let (mut a, mut b) = ([0u8; 3], [0u8; 5]);
+            loop {
+                match r.read_vectored(&mut [std::io::IoSliceMut::new(&mut a), std::io::IoSliceMut::new(&mut b)]) {
+                    Ok(0) => return Some(v),
+                    Ok(n) if n > 8 => return None,
+                    Ok(n) => {
+                        v.extend_from_slice(&a[..n.min(3)]);
+                        if n > 3 {
+                            v.extend_from_slice(&b[..n - 3]);
+                        }
+                    }
+                    Err(e) if e.kind() == std::io::ErrorKind::Interrupted => {}
+                    Err(_) => return None,
+                }
+                if v.len() > limit {
+                    return None;
+                }
+            }
         }
         P_IO_COPY => {
             let mut v = vec![];
@@ -373,7 +396,7 @@ fn judge(seed: &Seed, bytes: &[u8], what: &str, case: &dyn Fn() -> Value, bufs: 
         }
         for &b in bufs {
             for zero in [false, true] {
-                if zero && b >= P_IO_COPY {
+                if zero && b >= P_READ_VECTORED {
                     continue;
                 }
                 st.evals += 1;
@@ -451,11 +474,11 @@ pub fn run(args: &Args) -> i32 {
     }
     let thorough = args.tier.thorough();
     let all = seeds(seed, false);
-    let bufs: Vec<usize> = vec![1, 2, 7, 4096, 0, P_READ_TO_STRING, P_PREFIX_THEN_READ_TO_END, P_BYTES, P_IO_COPY];
+    let bufs: Vec<usize> = vec![1, 2, 7, 4096, 0, P_READ_TO_STRING, P_PREFIX_THEN_READ_TO_END, P_BYTES, P_IO_COPY, P_READ_VECTORED];
     ctx.rule = "E-PROD over damage to seed archives (two entries of 24 and ~60 bytes each, plus one seed of empty stored/deflated files and a directory; writer-made stored/deflate/bzip2/zstd and ZipCrypto, builder-made with data descriptors, AE-1, AE-2, and plain/AE-1/AE-2 deflate entries whose stream can end before the payload does (two blocks; spare bytes behind the final block)): \
         every one of the 255 other byte values at every offset of every entry's data region and of its CRC and size fields (central, and local for the streaming route) — in the quick tier the AES seeds get the 8 single-bit flips per byte instead; \
         every payload truncation length; payloads of the two entries swapped; each damaged archive is read entry by entry through the seekable and (where supported) the streaming reader with caller \
-        buffers {1, 2, 7, 4096, read_to_end} with and without interposed empty reads, and through read_to_string, read_exact(1)+read_to_end into one vector, bytes() and io::copy (two seeds hold ASCII text so that read_to_string can succeed). Oracle: a read sequence that ends in a clean EOF returned bytes whose CRC-32 equals the declared one; for AE-2 entries (no CRC; covered by their authentication code) a clean EOF must have returned exactly the original bytes. \
+        buffers {1, 2, 7, 4096, read_to_end} with and without interposed empty reads, and through read_to_string, read_exact(1)+read_to_end into one vector, bytes(), io::copy and read_vectored (two seeds hold ASCII text so that read_to_string can succeed). Oracle: a read sequence that ends in a clean EOF returned bytes whose CRC-32 equals the declared one; for AE-2 entries (no CRC; covered by their authentication code) a clean EOF must have returned exactly the original bytes. \
         distinct_nontrivial = distinct damaged archives (counted by the enumerator; positions x values never repeat)."
         .into();
     ctx.assume("the harness CRC-32 is correct (self-tested against known vectors at start-up)");
